@@ -1,5 +1,6 @@
 """Verifying a real function against its contract: one exploration per argument case."""
 import itertools
+import os
 import hashlib
 import ast
 import time
@@ -92,29 +93,19 @@ def verify_function(it, contract, snapshot_globals=None, cases=None, labels=None
     names = [n for n, _ in contract.args]
     alts = [[alt_from(a) for a in al] for _, al in contract.args]
     case_list = list(itertools.product(*alts)) if cases is None else cases
-    saved_target = it.mode.target
-    it.mode.target = contract.qualname
-    try:
-        for case in case_list:
-            res.cases += 1
-            case_name = ','.join(a.name for a in case)
-            label = contract.qualname + ('[%s]' % case_name if case_name else '')
-            if tag:
-                label += '{%s}' % tag
-            ex = Explorer()
+    from .parallel import Exploration
+    explorations = []
+    for case in case_list:
+        case_name = ','.join(a.name for a in case)
+        label = contract.qualname + ('[%s]' % case_name if case_name else '')
+        if tag:
+            label += '{%s}' % tag
 
-            def run(p, case=case, label=label):
-                run_case(it, p, fv, contract, names, case, label, snapshot_globals, labels)
-            paths = run_paths(it, ex, run, label)
-            res.paths += len(paths)
-            for p in paths:
-                res.obligations.extend(p.obligations)
-                if getattr(p, 'outcome', None) == 'normal':
-                    res.normal_paths += 1
-    finally:
-        it.mode.target = saved_target
+        def run(p, case=case, label=label):
+            run_case(it, p, fv, contract, names, case, label, snapshot_globals, labels)
+        explorations.append(Exploration(label, run, res, target=contract.qualname))
     res.seconds = time.time() - t0
-    return res
+    return res, explorations
 
 
 def run_paths(it, ex, fn, label):
@@ -129,6 +120,7 @@ def run_paths(it, ex, fn, label):
             raise Unsupported('path explosion in %s (> %d paths)' % (label, ex.max_paths))
         p = it.new_path(prefix, label)
         p.index = n - 1
+        p.shared_cache = ex.__dict__.setdefault('must_cache', {})
         it.p = p
         it.depth = 0
         try:
@@ -138,6 +130,10 @@ def run_paths(it, ex, fn, label):
             p.ended = 'cut: %s' % (e,)
         finally:
             it.p = None
+        if os.environ.get('PYVC_PROGRESS'):
+            print('  path %d of %s: %s; decisions=%s full=%d light=%d solver=%.1fs obligations=%d' % (
+                p.index, label, p.ended[:70], p.taken, p.n_full, p.n_light, p.solver_time, len(p.obligations)),
+                flush=True)
         for ob in p.obligations:
             ob.name = '%s@p%d' % (ob.name, p.index)
         work.extend(reversed(p.alternatives))
@@ -157,20 +153,31 @@ def run_case(it, p, fv, contract, names, case, label, snapshot_globals, labels):
     fr = sb.frame
     for gname, gdesc in contract.ghosts:
         fr.locals[gname] = fresh_value(it, gname, gdesc)
+    late = getattr(contract, 'late_requires', ())
+    for lab, expr in contract.requires:
+        if lab not in late:
+            p.assume(as_formula(it, spec_eval(it, expr, fr)))
+    if not p.feasible():
+        raise PathEnd('requires unsatisfiable on this case')
     for src in contract.setup:
         saved_mode = it.spec_mode
         it.spec_mode = True
         try:
             it.exec_block(parse_stmts(src), fr)
+        except Raised as r:
+            if getattr(contract, 'setup_defines_domain', False):
+                # e.g. `stream = stream_of(v.encode() + rest)`: values the real encoder rejects
+                # are outside the quantifier domain ("PDUs that can be built and encoded")
+                raise PathEnd('setup raised %s: outside the domain' % r.exc.cls.name)
+            raise
         finally:
             it.spec_mode = saved_mode
         # setup may rebind parameters
         for k in bound:
             bound[k] = fr.locals.get(k, bound[k])
     for lab, expr in contract.requires:
-        p.assume(as_formula(it, spec_eval(it, expr, fr)))
-    if not p.feasible():
-        raise PathEnd('requires unsatisfiable on this case')
+        if lab in late:
+            p.assume(as_formula(it, spec_eval(it, expr, fr)))
     ens = [(l, e) for (l, e) in contract.ensures if labels is None or l in labels]
     sb.precompute_olds([e for _, e in ens] + [w for _, w, _x in contract.raises if w])
     call_frame = make_frame(it, fv, dict(bound))
